@@ -250,7 +250,10 @@ func (g *Gen) snippet() string {
 			return Pick(r, []string{`<style v-once>.` + m + `{}</style>`, `<div v-for="item in items"><b v-once>` + m + `</b><i>{{ item.id }}</i></div>`, `<p v-once>` + m + ` {{ name }}</p>`})
 		}},
 		{"tplvar", func() string {
-			return Pick(r, []string{`<template :x="n+1"><i>{{ x }}</i></template>`, `<template y="static-y"><i>{{ y }}</i></template>`, `<template :z="user.name"><i>{{ z }}</i></template>`})
+			return Pick(r, []string{`<template :x="n+1"><i>{{ x }}</i></template>`, `<template y="static-y"><i>{{ y }}</i></template>`, `<template :z="user.name"><i>{{ z }}</i></template>`,
+				// read before a root-level assignment: a root scope that outlives its render shows here
+				`<p v-if="!greeted">welcome</p><template :greeted="true"></template><p v-if="greeted">again</p>`,
+				`<i>[{{ visits }}]</i><template :visits="(visits ?? 0) + 1"></template><b>{{ visits }}</b>`})
 		}},
 		{"filefn", func() string {
 			g.needSide()
